@@ -10,6 +10,7 @@
 -/
 import CC.Proofs.SpecLemmas
 import CC.Properties.C16
+import CC.Properties.C01
 set_option linter.unusedSectionVars false
 
 namespace CC
@@ -151,5 +152,59 @@ theorem C03_reref [LabelOrd L] (N N' : Net L K) (g : L) (R : Report L K)
     (hr : switchGround N g = .ok N') (h : CircuitEqs N R) :
     CircuitEqs N' (R.shift (R.pot g)) ∧ N'.branches = N.branches ∧ N'.zero = g :=
   C16_switch_ground N N' g R hr h
+
+end CC
+
+/-! ### the same statements about the numbers the code reports
+
+`C01_sound` says the accessors report a solution of the Spec and `C01_reported_is_the_solution`
+that a well-posed network has no other; with the invariance theorems above, the reported
+quantities of a transformed description are the transformed reported quantities.  `x` and
+`x'` are *any* vectors satisfying the two matrix equations (certificates). -/
+
+namespace CC
+variable {L K : Type} [DecidableEq L] [LabelOrd L] [Field K] [DecidableEq K]
+
+/-- **C03 (reported values, terminal order).** -/
+theorem C03_reported_reverse (f : String → Bool) (N : Net L K) (wf : N.WF) (wf' : (N.flip f).WF)
+    (hw' : WellPosed (N.flip f)) (x x' : List K)
+    (hx : x.length = N.nodes.length + N.vsIds.length)
+    (hx' : x'.length = (N.flip f).nodes.length + (N.flip f).vsIds.length)
+    (h : matVec N.mnaA x = N.mnaB) (h' : matVec (N.flip f).mnaA x' = (N.flip f).mnaB) :
+    ((N.flip f).reportOf x').AgreeOn (N.flip f) ((N.reportOf x).flip f) :=
+  C01_reported_is_the_solution (N.flip f) wf' hw' x' hx' h' _
+    (C03_reverse f N _ (C01_sound N x wf hx h).2.2)
+
+/-- **C03 (reported values, listing order).** -/
+theorem C03_reported_perm (N N' : Net L K) (hz : N.zero = N'.zero) (hp : N.branches.Perm N'.branches)
+    (wf : N.WF) (wf' : N'.WF) (hw' : WellPosed N') (x x' : List K)
+    (hx : x.length = N.nodes.length + N.vsIds.length)
+    (hx' : x'.length = N'.nodes.length + N'.vsIds.length)
+    (h : matVec N.mnaA x = N.mnaB) (h' : matVec N'.mnaA x' = N'.mnaB) :
+    (N'.reportOf x').AgreeOn N' (N.reportOf x) :=
+  C01_reported_is_the_solution N' wf' hw' x' hx' h' _
+    ((C03_perm N N' hz hp _).mp (C01_sound N x wf hx h).2.2)
+
+/-- **C03 (reported values, reference node).** -/
+theorem C03_reported_reref (N N' : Net L K) (g : L) (hr : switchGround N g = .ok N')
+    (wf : N.WF) (wf' : N'.WF) (hw' : WellPosed N') (x x' : List K)
+    (hx : x.length = N.nodes.length + N.vsIds.length)
+    (hx' : x'.length = N'.nodes.length + N'.vsIds.length)
+    (h : matVec N.mnaA x = N.mnaB) (h' : matVec N'.mnaA x' = N'.mnaB) :
+    (N'.reportOf x').AgreeOn N' ((N.reportOf x).shift ((N.reportOf x).pot g)) :=
+  C01_reported_is_the_solution N' wf' hw' x' hx' h' _
+    (C03_reref N N' g _ hr (C01_sound N x wf hx h).2.2).1
+
+/-- **C03 (reported values, renaming).**  Reading the report of the renamed network back
+through the renaming gives the report of the original network. -/
+theorem C03_reported_rename {L' : Type} [DecidableEq L'] [LabelOrd L'] (σ : L → L')
+    (hσ : Function.Injective σ) (τ : String → String) (N : Net L K) (wf : N.WF) (hw : WellPosed N)
+    (wf' : (N.rename σ τ).WF) (x x' : List K)
+    (hx : x.length = N.nodes.length + N.vsIds.length)
+    (hx' : x'.length = (N.rename σ τ).nodes.length + (N.rename σ τ).vsIds.length)
+    (h : matVec N.mnaA x = N.mnaB) (h' : matVec (N.rename σ τ).mnaA x' = (N.rename σ τ).mnaB) :
+    (N.reportOf x).AgreeOn N (((N.rename σ τ).reportOf x').comap σ τ) :=
+  C01_reported_is_the_solution N wf hw x hx h _
+    ((C03_rename σ hσ τ N _).mp (C01_sound (N.rename σ τ) x' wf' hx' h').2.2)
 
 end CC
